@@ -159,6 +159,123 @@ fn with_slack(bytes: &[u8], bit_len: usize, variant: u8) -> Vec<u8> {
     v
 }
 
+/// decodes `plan` from one delivery twice (different slack beyond the declared length) and applies
+/// O1, O3, O4, O5 and the exact oracle for messages wholly before `first_affected`.
+/// Ok(number of decode attempts) or the violation.
+#[allow(clippy::too_many_arguments)]
+fn evaluate(ctx: &mut RunCtx<'_>, bytes: &[u8], bit_len: usize, plan: &[usize], first_affected: usize, sent: &[Msg], outcomes_only: bool, log: bool) -> Result<usize, Violation> {
+    let z = zoo();
+    // decode twice: identical declared content, different slack beyond it (W-SLACK must be invisible)
+    let a_bytes = with_slack(bytes, bit_len, 0);
+    let b_bytes = with_slack(bytes, bit_len, 1);
+    let ra = decode_stream(&a_bytes, bit_len, plan, 1);
+    let rb = decode_stream(&b_bytes, bit_len, plan, 1);
+    let input_bytes = (bit_len + 7) / 8;
+    let budget = ALLOC_BASE + ALLOC_PER_INPUT_BYTE * input_bytes;
+
+    let mut seen_failure = false;
+    for (i, at) in ra.iter().enumerate() {
+        let ops = &z.types[plan[i]];
+        let digest = match &at.out {
+            Out::Ok(h) => *h,
+            Out::Err(e) => crate::choices::fnv1a(e.as_bytes()),
+            Out::Panic(p) => crate::choices::fnv1a(p.as_bytes()) ^ 1,
+        };
+        if log {
+            ctx.log.ev("C1", "read", crate::choices::mix(digest, at.pos as u64), || format!("msg{} {} -> {:?} pos={} len={}", i, ops.name, at.out, at.pos, at.len));
+        }
+        if let Some(o) = &mut ctx.outcomes {
+            o.push(format!("{} {} {:?} pos={} len={} rem_panic={:?}", i, ops.name, at.out, at.pos, at.len, at.remaining_panicked));
+        }
+        if outcomes_only {
+            ctx.counters.inc(match &at.out {
+                Out::Ok(_) => "c19.read_ok",
+                Out::Err(_) => "c19.read_err",
+                Out::Panic(_) => "c19.read_panic",
+            });
+            continue;
+        }
+        ctx.counters.inc(match &at.out {
+            Out::Ok(_) => "c04.uper.read_ok",
+            Out::Err(_) => "c04.uper.read_err",
+            Out::Panic(_) => "c04.uper.read_panic",
+        });
+        ctx.counters.max("max.c04.largest_single_alloc", at.largest_alloc as u64);
+        ctx.counters.max("max.c04.peak_alloc_in_read", at.peak_alloc as u64);
+        let after_failure = seen_failure;
+        // O1 no panic
+        if let Out::Panic(sig) = &at.out {
+            if after_failure {
+                ctx.counters.inc("diag.C04.panic_in_read_after_failed_read");
+                ctx.counters.inc(&format!("diag.C04.panic_after_failure@{sig}"));
+            } else {
+                return Err(Violation {
+                    signature: format!("C04/O1-panic/uper/{sig}"),
+                    detail: format!("UperReader::read::<{}> panicked on a corrupted delivery ({} bits): {}", ops.name, bit_len, sig),
+                });
+            }
+        }
+        if !after_failure {
+            // O3 allocation budget
+            if at.largest_alloc > budget || at.peak_alloc > budget {
+                return Err(Violation {
+                    signature: format!("C04/O3-alloc-budget/uper/type={}", ops.name),
+                    detail: format!("reading {} from {} input bytes requested {} bytes at once / {} bytes live (budget {} = 32 MiB + 8192 x input bytes)", ops.name, input_bytes, at.largest_alloc, at.peak_alloc, budget),
+                });
+            }
+            // O4 no success past the declared length
+            if matches!(at.out, Out::Ok(_)) && at.pos > at.len {
+                return Err(Violation {
+                    signature: "C04/O4-success-past-declared-length".to_string(),
+                    detail: format!("read::<{}> returned Ok with pos={} > declared len={}", ops.name, at.pos, at.len),
+                });
+            }
+            // O5 accessors callable after a failed read
+            if let (Some(sig), false) = (&at.remaining_panicked, matches!(at.out, Out::Ok(_))) {
+                return Err(Violation {
+                    signature: format!("C04/O5-bits_remaining-panics-after-failed-read/{sig}"),
+                    detail: format!("bits_remaining() panicked after read::<{}> returned {:?} (pos={} len={})", ops.name, at.out, at.pos, at.len),
+                });
+            }
+            if let (Some(sig), true) = (&at.remaining_panicked, matches!(at.out, Out::Ok(_))) {
+                // only possible with pos > len, reported above; keep as diagnostic otherwise
+                ctx.counters.inc(&format!("diag.C04.bits_remaining_panicked_after_ok@{sig}"));
+            }
+            // O4b slack independence
+            if let Some(bt) = rb.get(i) {
+                let differs = at.out != bt.out || at.pos != bt.pos;
+                if differs && (matches!(at.out, Out::Ok(_)) || matches!(bt.out, Out::Ok(_))) {
+                    return Err(Violation {
+                        signature: "C04/O4-slack-dependent-success".to_string(),
+                        detail: format!("read::<{}> on the same declared {} bits gives {:?} pos={} with zero slack but {:?} pos={} with other slack: a success consumed bits beyond the declared length", ops.name, bit_len, at.out, at.pos, bt.out, bt.pos),
+                    });
+                } else if differs {
+                    ctx.counters.inc("diag.C04.slack_dependent_error");
+                }
+            }
+            // exact oracle for messages before the first affected bit
+            if let Some(m) = sent.get(i) {
+                let pos_before = if i == 0 { 0 } else { ra[i - 1].pos };
+                if m.end <= first_affected && m.ty == plan[i] && pos_before == m.start {
+                    let ok = matches!(&at.out, Out::Ok(h) if *h == m.tree.hash()) && at.pos == m.end;
+                    if !ok {
+                        return Err(Violation {
+                            signature: "C04/unaffected-prefix-not-exact".to_string(),
+                            detail: format!("message {} ({}) ends at bit {} before the first affected bit {} but decoded as {:?} pos={}", i, ops.name, m.end, first_affected, at.out, at.pos),
+                        });
+                    }
+                    ctx.counters.inc("c04.unaffected_prefix_exact");
+                }
+            }
+        }
+        if !matches!(at.out, Out::Ok(_)) {
+            seen_failure = true;
+            ctx.counters.inc("probe.read_failed_then_accessors_called");
+        }
+    }
+    Ok(ra.len())
+}
+
 pub fn run_uper(ctx: &mut RunCtx<'_>, outcomes_only: bool) -> Option<Violation> {
     let z = zoo();
     let lifted: Vec<String> = ctx.lifted.to_vec();
@@ -262,115 +379,51 @@ pub fn run_uper(ctx: &mut RunCtx<'_>, outcomes_only: bool) -> Option<Violation> 
     }
     ctx.log.ev("W1", "deliver", crate::choices::mix(crate::choices::fnv1a(&bytes), bit_len as u64), || format!("{} faults, {} bits", applied.len(), bit_len));
 
-    // decode twice: identical declared content, different slack beyond it (W-SLACK must be invisible)
-    let a_bytes = with_slack(&bytes, bit_len, 0);
-    let b_bytes = with_slack(&bytes, bit_len, 1);
-    let ra = decode_stream(&a_bytes, bit_len, &plan, 1);
-    let rb = decode_stream(&b_bytes, bit_len, &plan, 1);
-    let input_bytes = (bit_len + 7) / 8;
-    let budget = ALLOC_BASE + ALLOC_PER_INPUT_BYTE * input_bytes;
-
-    let mut seen_failure = false;
-    for (i, at) in ra.iter().enumerate() {
-        let ops = &z.types[plan[i]];
-        let digest = match &at.out {
-            Out::Ok(h) => *h,
-            Out::Err(e) => crate::choices::fnv1a(e.as_bytes()),
-            Out::Panic(p) => crate::choices::fnv1a(p.as_bytes()) ^ 1,
-        };
-        ctx.log.ev("C1", "read", crate::choices::mix(digest, at.pos as u64), || format!("msg{} {} -> {:?} pos={} len={}", i, ops.name, at.out, at.pos, at.len));
-        if let Some(o) = &mut ctx.outcomes {
-            o.push(format!("{} {} {:?} pos={} len={} rem_panic={:?}", i, ops.name, at.out, at.pos, at.len, at.remaining_panicked));
-        }
-        if outcomes_only {
-            ctx.counters.inc(match &at.out {
-                Out::Ok(_) => "c19.read_ok",
-                Out::Err(_) => "c19.read_err",
-                Out::Panic(_) => "c19.read_panic",
-            });
-            continue;
-        }
-        ctx.counters.inc(match &at.out {
-            Out::Ok(_) => "c04.uper.read_ok",
-            Out::Err(_) => "c04.uper.read_err",
-            Out::Panic(_) => "c04.uper.read_panic",
-        });
-        ctx.counters.max("max.c04.largest_single_alloc", at.largest_alloc as u64);
-        ctx.counters.max("max.c04.peak_alloc_in_read", at.peak_alloc as u64);
-        let after_failure = seen_failure;
-        // O1 no panic
-        if let Out::Panic(sig) = &at.out {
-            if after_failure {
-                ctx.counters.inc("diag.C04.panic_in_read_after_failed_read");
-                ctx.counters.inc(&format!("diag.C04.panic_after_failure@{sig}"));
-            } else {
-                return Some(Violation {
-                    signature: format!("C04/O1-panic/uper/{sig}"),
-                    detail: format!("UperReader::read::<{}> panicked on a corrupted delivery ({} bits): {}", ops.name, bit_len, sig),
-                });
+    let ra_len = match evaluate(ctx, &bytes, bit_len, &plan, first_affected, &stream.prod.stream, outcomes_only, true) {
+        Ok(n) => n,
+        Err(v) => return Some(v),
+    };
+    // fault-point enumeration (exhaustive over fault position for this stream): every declared
+    // length, every single bit flip, every single byte deletion of the CLEAN delivery
+    let enumerate = !outcomes_only && !stream.types.is_empty() && clean_len <= 1024 && ctx.ch.draw(0, if ctx.tier == Tier::Thorough { 25 } else { 400 }) == 0;
+    if enumerate {
+        let clean_plan: Vec<usize> = stream.types.clone();
+        let mut points = 0u64;
+        for l in 0..=clean_len {
+            points += 1;
+            if let Err(mut v) = evaluate(ctx, &clean_bytes, l, &clean_plan, l, &stream.prod.stream, false, false) {
+                v.detail = format!("[fault-point enumeration: declared length {l} of {clean_len}] {}", v.detail);
+                return Some(v);
             }
         }
-        if !after_failure {
-            // O3 allocation budget
-            if at.largest_alloc > budget || at.peak_alloc > budget {
-                return Some(Violation {
-                    signature: format!("C04/O3-alloc-budget/uper/type={}", ops.name),
-                    detail: format!("reading {} from {} input bytes requested {} bytes at once / {} bytes live (budget {} = 32 MiB + 8192 x input bytes)", ops.name, input_bytes, at.largest_alloc, at.peak_alloc, budget),
-                });
-            }
-            // O4 no success past the declared length
-            if matches!(at.out, Out::Ok(_)) && at.pos > at.len {
-                return Some(Violation {
-                    signature: "C04/O4-success-past-declared-length".to_string(),
-                    detail: format!("read::<{}> returned Ok with pos={} > declared len={}", ops.name, at.pos, at.len),
-                });
-            }
-            // O5 accessors callable after a failed read
-            if let (Some(sig), false) = (&at.remaining_panicked, matches!(at.out, Out::Ok(_))) {
-                return Some(Violation {
-                    signature: format!("C04/O5-bits_remaining-panics-after-failed-read/{sig}"),
-                    detail: format!("bits_remaining() panicked after read::<{}> returned {:?} (pos={} len={})", ops.name, at.out, at.pos, at.len),
-                });
-            }
-            if let (Some(sig), true) = (&at.remaining_panicked, matches!(at.out, Out::Ok(_))) {
-                // only possible with pos > len, reported above; keep as diagnostic otherwise
-                ctx.counters.inc(&format!("diag.C04.bits_remaining_panicked_after_ok@{sig}"));
-            }
-            // O4b slack independence
-            if let Some(bt) = rb.get(i) {
-                let differs = at.out != bt.out || at.pos != bt.pos;
-                if differs && (matches!(at.out, Out::Ok(_)) || matches!(bt.out, Out::Ok(_))) {
-                    return Some(Violation {
-                        signature: "C04/O4-slack-dependent-success".to_string(),
-                        detail: format!("read::<{}> on the same declared {} bits gives {:?} pos={} with zero slack but {:?} pos={} with other slack: a success consumed bits beyond the declared length", ops.name, bit_len, at.out, at.pos, bt.out, bt.pos),
-                    });
-                } else if differs {
-                    ctx.counters.inc("diag.C04.slack_dependent_error");
-                }
-            }
-            // exact oracle for messages before the first affected bit
-            if let Some(m) = stream.prod.stream.get(i) {
-                let pos_before = if i == 0 { 0 } else { ra[i - 1].pos };
-                if m.end <= first_affected && m.ty == plan[i] && pos_before == m.start {
-                    let ok = matches!(&at.out, Out::Ok(h) if *h == m.tree.hash()) && at.pos == m.end;
-                    if !ok {
-                        return Some(Violation {
-                            signature: "C04/unaffected-prefix-not-exact".to_string(),
-                            detail: format!("message {} ({}) ends at bit {} before the first affected bit {} but decoded as {:?} pos={}", i, ops.name, m.end, first_affected, at.out, at.pos),
-                        });
-                    }
-                    ctx.counters.inc("c04.unaffected_prefix_exact");
-                }
+        ctx.counters.add("fault.W-TRUNC-LEN", clean_len as u64 + 1);
+        for i in 0..clean_len {
+            let mut b = clean_bytes.clone();
+            b[i / 8] ^= 0x80 >> (i % 8);
+            points += 1;
+            if let Err(mut v) = evaluate(ctx, &b, clean_len, &clean_plan, i, &stream.prod.stream, false, false) {
+                v.detail = format!("[fault-point enumeration: bit {i} of {clean_len} flipped] {}", v.detail);
+                return Some(v);
             }
         }
-        if !matches!(at.out, Out::Ok(_)) {
-            seen_failure = true;
-            ctx.counters.inc("probe.read_failed_then_accessors_called");
+        ctx.counters.add("fault.W-FLIP", clean_len as u64);
+        for k in 0..clean_bytes.len() {
+            let mut b = clean_bytes.clone();
+            b.remove(k);
+            let nl = clean_len.saturating_sub(8).min(b.len() * 8);
+            points += 1;
+            if let Err(mut v) = evaluate(ctx, &b, nl, &clean_plan, (k * 8).min(nl), &stream.prod.stream, false, false) {
+                v.detail = format!("[fault-point enumeration: byte {k} deleted] {}", v.detail);
+                return Some(v);
+            }
         }
+        ctx.counters.add("fault.W-DEL", clean_bytes.len() as u64);
+        ctx.counters.inc("probe.fault_point_enumeration_streams");
+        ctx.counters.add("c04.enumerated_fault_points", points);
     }
     ctx.nontrivial = !applied.is_empty() || xtype;
     if outcomes_only {
-        ctx.nontrivial = !ra.is_empty();
+        ctx.nontrivial = ra_len > 0;
         ctx.counters.inc(if cfg!(feature = "dde") { "build.descriptive-deserialize-errors=on" } else { "build.descriptive-deserialize-errors=off" });
         let d = DDE_DESCRIPTIONS.swap(0, std::sync::atomic::Ordering::Relaxed);
         ctx.counters.add("probe.dde_error_carries_description", d);
